@@ -50,7 +50,7 @@ REQUIRED = [
     'fix_cond_none_seats_byParty_now', 'fix_cond_none_seats_byParty_before_witness',
     'fix_cond_none_seats_preselector_now', 'fix_cond_none_seats_preselector_before_witness',
     # what the laws say
-    'multistage_chain', 'multistage_nil', 'tieBreaking_noTie_sel', 'tieBreaking_noTie_dist', 'tieChoice_among',
+    'multistage_chain', 'multistage_nil', 'unused_chain', 'unused_chain_last', 'tieBreaking_noTie_sel', 'tieBreaking_noTie_dist', 'tieChoice_among',
     'tieBreaking_ideal', 'replaceSel_eq_fill', 'fillTie_other_places', 'fillTie_length', 'collectSel_count',
     'byConstituency_total', 'byConstituency_pointwise', 'district_evaluated', 'district_without_seats',
     'partyList_seats_exactly', 'closedList_ok',
@@ -78,8 +78,8 @@ NOT_VERIFIED = [
     'positional versus keyword passing of n_seats (collapsed into one optional argument; equivalent for every class modelled)',
     'hash-order walk of set(elected)|set(stage_res) in MultistageDistributor._add_stage_results (only the insertion order '
     'of the result depends on it; results are compared as maps)',
-    'leaf evaluators other than Plurality, InputOrderSelector, HighestAverages, Absolute/RelativeThreshold, '
-    'PreviousGainThreshold (the theorems hold for arbitrary leaves; the correspondence instantiates these)',
+    'leaf evaluators other than Plurality, InputOrderSelector, HighestAverages, QuotaDistributor, LargestRemainder, '
+    'Absolute/RelativeThreshold, PreviousGainThreshold (the theorems hold for arbitrary leaves; the correspondence instantiates these)',
     'open-list evaluation inside PartyListEvaluator (modelled with an abstract list evaluator, exercised with closed lists)',
     'Python aliasing: MultistageDistributor hands the SAME accumulating dict to every stage (pure stages assumed; C18)',
     'insertion order of a HighestAverages result (order of first award): ByParty walks the parties in that order, so which '
@@ -1610,7 +1610,7 @@ ASSUMPTIONS = [
     'still told None (conditioned_required_gets_none), so that compositions that worked keep working; the laws carry '
     'that one semantic bit of the part (needsSeats), proved equal to the negation of seats_optional wherever consulted',
 ]
-RULE = ('wrapper trees of 0-4 wrapper levels over Plurality / InputOrderSelector / HighestAverages(5 divisors) / Absolute-, Relative-, '
+RULE = ('wrapper trees of 0-4 wrapper levels over Plurality / InputOrderSelector / HighestAverages(5 divisors) / QuotaDistributor / LargestRemainder / Absolute-, Relative-, '
         'PreviousGain-threshold; 2-5 parties, 1-4 constituencies, votes from tie-forcing small sets (x1, x5, x100, some Fractions), '
         'seats 1-6 given as int, per-constituency dict, fixed int/dict apportioner, distributor apportioner (with total or seatless), '
         'prev_gains / max_seats of matching nesting; directed cases for every named mechanism; thorough adds every '
@@ -1632,6 +1632,6 @@ LEVEL_TEXT = ('core.py\'s thirteen wrapper classes are modelled as a deep embedd
               'leaf objects, Lean interpreter) on random typed trees, and the hard-coded dispatch flags are compared with votelib\'s on '
               'the live objects of every case.')
 LEVEL_NOTE = ('Trusted: Lean kernel + propext/Classical.choice/Quot.sound; the correspondence harness and its generator bounds (depth <= 4, '
-              'six leaf classes, closed lists); inspect.signature itself (flags hard-coded per class, cross-checked on every case); the '
+              'eight leaf classes, closed lists); inspect.signature itself (flags hard-coded per class, cross-checked on every case); the '
               'shared HighestAverages / get_n_best models as leaves.  No open finding; sixteen fixed entries (904ccca, 3968d16, caf8ac3, 9f4a9df, e582ee8, 5bf2df2 and the pending '
               'n_seats=None repair) are replayed on every run.')
